@@ -258,7 +258,7 @@ def _run_fast(cdir, seed, T, log, conflict_share=0.4, with_corpus=True):
             for k, cfg in enumerate(gen.configs_for(rnd, c, T["fast_cfgs"])):
                 cfg["id"] = "fast/%s#%d" % (c["dir"], k)
                 cfg["adv"] = c["adv"]
-                cfg["conflict"] = bool(c.get("conflict"))
+                cfg["conflict"] = bool(c.get("conflict")) or bool(c.get("ordsens"))
                 jobs.append(cfg)
         # the corpus once more, for the oracles only this stage has (the fixed point of C15)
         for j in (copy_corpus(root) if with_corpus else []):
@@ -267,7 +267,7 @@ def _run_fast(cdir, seed, T, log, conflict_share=0.4, with_corpus=True):
             jobs.append(j)
         fastcfg = {"Root": root, "Mod": gen.MOD, "Base": os.path.join(root, "fastbase")}
         reqs = [{"job": j, "fmts": ["noop", ""], "facts": True, "oracle": True, # where several same-named packages meet, Go's map order can matter: more repetitions (C14)
-                 "reps": 6 if j.get("conflict") else (2 if i % 5 == 0 else 0),
+                 "reps": 8 if j.get("conflict") else (2 if i % 5 == 0 else 0),
                  "fast": dict(fastcfg, CheckFind=(i % 97 == 0))} for i, j in enumerate(jobs)]
         rres = pool.run_jobs(harness, root, reqs, env=env, timeout=120)
         # C14 across processes: a sample of the jobs is generated once more by *other* worker
